@@ -350,7 +350,8 @@ OptimalStep(ev) ==
         key == <<"wsaddr", ev.obj>>
         others == {memo[k] : k \in {k2 \in DOMAIN memo : k2[1] = "wsaddr" /\ k2[2] # ev.obj /\ k2[2] \in OLive}}
         cands == <<Cand("C15", "workspace.not_shared", addr = 0 \/ addr \notin others, [obj |-> ev.obj, addr |-> addr]),
-                   Cand("C15", "workspace.exists_iff_used", (opts[ev.obj].ws = 0) = ev.out.optimal.null, [obj |-> ev.obj])>>
+                   \* (whether an unused optimizer already has a built-in workspace is an implementation choice: only "used => exists" is required)
+                   Cand("C15", "workspace.exists_once_used", opts[ev.obj].ws # 0 => ~ev.out.optimal.null, [obj |-> ev.obj])>>
     IN Force([StepRec(cands, <<"optimal_queries">>) EXCEPT !.memo = [k \in DOMAIN memo \cup {key} |-> IF k = key THEN addr ELSE memo[k]]])
 TrOptimal == IsEvent("get_optimal") /\ sc' = OptimalStep(Ev) /\ UNCHANGED <<opts, umaps, nextWs>> /\ Record
 
